@@ -18,7 +18,9 @@ import (
 	"fmt"
 	"github.com/hyperjumptech/grule-rule-engine/ast/unique"
 	"github.com/hyperjumptech/grule-rule-engine/logger"
+	"github.com/hyperjumptech/grule-rule-engine/model"
 	"github.com/hyperjumptech/grule-rule-engine/pkg"
+	"reflect"
 	"strings"
 	"time"
 )
@@ -391,6 +393,84 @@ func (workingMem *WorkingMemory) ResetVariable(variable *Variable) bool {
 	}
 
 	return reseted
+}
+
+// constantKey returns the value of a selector that is a literal, e.g. the 0 of F.Arr[0] or the "k" of F.M["k"].
+func constantKey(selector *ArrayMapSelector) (reflect.Value, bool) {
+	if selector == nil || selector.Expression == nil || selector.Expression.ExpressionAtom == nil || selector.Expression.ExpressionAtom.Constant == nil {
+
+		return reflect.Value{}, false
+	}
+
+	return selector.Expression.ExpressionAtom.Constant.Value, true
+}
+
+// mayAlias tells whether other may name the location that written names. Both have to address the same container.
+// Two selectors name the same element unless they are literals with different values, two member names never do,
+// and a member name and a selector do when the container is map-like (J.k and J["k"] of a JSON object).
+func mayAlias(written, other *Variable) bool {
+	if other.Variable != written.Variable {
+
+		return false
+	}
+	if written.ArrayMapSelector != nil && other.ArrayMapSelector != nil {
+		key, isConstant := constantKey(written.ArrayMapSelector)
+		otherKey, otherIsConstant := constantKey(other.ArrayMapSelector)
+		if isConstant && otherIsConstant && key.IsValid() && otherKey.IsValid() && key.Kind() == otherKey.Kind() {
+
+			return key.Interface() == otherKey.Interface()
+		}
+
+		return true
+	}
+	if written.ArrayMapSelector == nil && other.ArrayMapSelector == nil {
+
+		return false
+	}
+
+	return written.Variable.ValueNode == nil || written.Variable.ValueNode.IsMap()
+}
+
+// containerSize returns the number of elements of an array or map node, 0 for a node that has no elements and
+// -1 when it cannot be told.
+func containerSize(node model.ValueNode) int {
+	if node == nil {
+
+		return -1
+	}
+	if !node.IsArray() && !node.IsMap() {
+
+		return 0
+	}
+	size, err := node.Length()
+	if err != nil {
+
+		return -1
+	}
+
+	return size
+}
+
+// ResetAliases forgets what was read through another spelling of the location that was just written. The element
+// of an array or map can be addressed by any selector expression (F.Arr[0], F.Arr[F.I]), and the member of a map-like
+// node by dot or by selector; such readers are indexed under their own text only. On every level of the written path
+// the variables that may name the same location are reset. A write that added or removed a key changed the container
+// itself, whose containerSize before the write is given in size.
+func (workingMem *WorkingMemory) ResetAliases(written *Variable, size int) {
+	if written.Variable == nil {
+
+		return
+	}
+	if newSize := containerSize(written.Variable.ValueNode); newSize != size || newSize < 0 {
+		workingMem.ResetVariable(written.Variable)
+	}
+	for v := written; v.Variable != nil; v = v.Variable {
+		for _, other := range workingMem.variableSnapshotMap {
+			if other != v && mayAlias(v, other) {
+				workingMem.ResetVariable(other)
+			}
+		}
+	}
 }
 
 // ResetAll sets all expression evaluated status to false.
